@@ -1,5 +1,7 @@
 (* C04 — Values round-trip unchanged and text is never executed.
-   Property theorems only: statement, exact, Print Assumptions.  Proofs: proofs/C04P.v, C04Shape.v, C04Wit.v. *)
+   Property theorems only: statement, exact, Print Assumptions.  Proofs: proofs/C04P.v, C04Shape.v, C04Wit.v.
+   State: the four classes found on the original tree were repaired in /repo (cdaba75, 936f709, e64e320,
+   043e710); every statement below is a _holds statement without a fencing hypothesis. *)
 From DV Require Import Codec Sql Run_C04 C04P C04Shape C04Wit.
 
 (* (1) serde_json's string escaping (the _json column) is undone by JSON unescaping, for every text *)
@@ -7,12 +9,11 @@ Theorem C04_json_codec : forall s, json_unesc (json_esc s) = Some s.
 Proof. exact json_codec. Qed.
 Print Assumptions C04_json_codec.
 
-(* (2) what the three copies of the literal decoder do, exactly: on the token sequences the grammars accept,
-       the decoded literal is the value the literal denotes if and only if its only escape is the escaped quote *)
-Theorem C04_literal_decode_spec : forall ts, forallb wf_tok ts = true ->
-  (decode_literal (render ts) = toks_value ts <-> only_quote_escapes ts = true).
-Proof. exact literal_decode_spec. Qed.
-Print Assumptions C04_literal_decode_spec.
+(* (2) the literal decoder (query_language::decode_string_literal, modelled character by character with its
+       pending-surrogate state) gives every token sequence the grammars accept the value it denotes *)
+Theorem C04_literal_decode_holds : forall ts, forallb wf_tok ts = true -> decode_literal (render ts) = toks_value ts.
+Proof. exact literal_decode_holds. Qed.
+Print Assumptions C04_literal_decode_holds.
 
 (*     and the tokenizer used to state it inverts the rendering of tokens *)
 Theorem C04_lex_render : forall l ts, lex_lit l = Some ts -> render ts = l /\ forallb wf_tok ts = true.
@@ -20,63 +21,59 @@ Proof. exact lex_render. Qed.
 Print Assumptions C04_lex_render.
 
 (* (3) a String value written as a parameter or as a literal is stored, read back unchanged and found by an
-       equality filter with the value as parameter and as literal — for every text, outside class 1 *)
-Theorem C04_roundtrip_outside_known : forall h w v,
-  intended h w = Some v -> known_C04 (CStr h w) = [] ->
-  spec_C04 (CStr h w) (run_C04 (CStr h w)) = true.
-Proof. exact roundtrip_outside_known. Qed.
-Print Assumptions C04_roundtrip_outside_known.
+       equality filter with the value as parameter and as literal — for every text *)
+Theorem C04_roundtrip_holds : forall h w v,
+  intended h w = Some v -> spec_C04 (CStr h w) (run_C04 (CStr h w)) = true.
+Proof. exact roundtrip_holds. Qed.
+Print Assumptions C04_roundtrip_holds.
 
-(* (4) non-interference: the statement compiled for a query does not depend on the characters of its String
-       literals (they reach the engine as bound parameters only) — outside class 3 *)
-Theorem C04_nostructure : forall m q q',
-  same_shape q q' -> k_capture m q = false -> k_capture m q' = false -> sql_text m q = sql_text m q'.
+(* (4) non-interference: the statement compiled for a query depends neither on the characters of the query's
+       String literals nor on the characters of the model's String defaults: all of them reach the engine as
+       bound parameters only *)
+Theorem C04_nostructure_holds : forall m m' q q',
+  same_model_up_to_string_defaults m m' -> same_shape q q' -> sql_text m q = sql_text m' q'.
 Proof. exact nostructure. Qed.
-Print Assumptions C04_nostructure.
+Print Assumptions C04_nostructure_holds.
 
-Theorem C04_nostructure_spec : forall m q,
-  known_C04 (CShape m q) = [] -> spec_C04 (CShape m q) (run_C04 (CShape m q)) = true.
-Proof. exact shape_spec. Qed.
+Theorem C04_nostructure_spec : forall m q, spec_C04 (CShape m q) (run_C04 (CShape m q)) = true.
+Proof. exact shape_holds. Qed.
 Print Assumptions C04_nostructure_spec.
 
-(* (5) closed witnesses of the violations (each replayed on the real code on every run) *)
-Example C04_literal_refuted : spec_C04 w_K1_literal_backslash (run_C04 w_K1_literal_backslash) = false /\ known_C04 w_K1_literal_backslash = [1].
-Proof. exact w_K1_literal_backslash_refuted. Qed.
-Print Assumptions C04_literal_refuted.
-Example C04_literal_filter_refuted : spec_C04 w_K1_param_backslash (run_C04 w_K1_param_backslash) = false /\ known_C04 w_K1_param_backslash = [1].
-Proof. exact w_K1_param_backslash_refuted. Qed.
-Print Assumptions C04_literal_filter_refuted.
-Example C04_literal_unicode_refuted : spec_C04 w_K1_unicode_escape (run_C04 w_K1_unicode_escape) = false /\ known_C04 w_K1_unicode_escape = [1].
-Proof. exact w_K1_unicode_escape_refuted. Qed.
-Print Assumptions C04_literal_unicode_refuted.
-Example C04_defaults_refuted : spec_C04 w_K2_default_quote (run_C04 w_K2_default_quote) = false /\ known_C04 w_K2_default_quote = [2].
-Proof. exact w_K2_default_quote_refuted. Qed.
-Print Assumptions C04_defaults_refuted.
-Example C04_defaults_injection_refuted : spec_C04 w_K2_default_injection (run_C04 w_K2_default_injection) = false /\ known_C04 w_K2_default_injection = [2].
-Proof. exact w_K2_default_injection_refuted. Qed.
-Print Assumptions C04_defaults_injection_refuted.
-Example C04_nostructure_refuted : spec_C04 w_K3_capture (run_C04 w_K3_capture) = false /\ known_C04 w_K3_capture = [3].
-Proof. exact w_K3_capture_refuted. Qed.
-Print Assumptions C04_nostructure_refuted.
-Example C04_float_literal_refuted : spec_C04 w_K4_float_display (run_C04 w_K4_float_display) = false /\ known_C04 w_K4_float_display = [4].
-Proof. exact w_K4_float_display_refuted. Qed.
-Print Assumptions C04_float_literal_refuted.
+Theorem C04_defaults_holds : forall m q, sql_text m q = sql_text (neutral_model m) q.
+Proof. exact defaults_holds. Qed.
+Print Assumptions C04_defaults_holds.
 
-(* (6) the hypotheses are satisfiable *)
-Example C04_roundtrip_nonvacuous : spec_C04 w_ok_escaped_quote (run_C04 w_ok_escaped_quote) = true /\ known_C04 w_ok_escaped_quote = [].
-Proof. exact w_ok_escaped_quote_ok. Qed.
-Print Assumptions C04_roundtrip_nonvacuous.
-Example C04_param_nonvacuous : spec_C04 w_ok_param_sql (run_C04 w_ok_param_sql) = true /\ known_C04 w_ok_param_sql = [].
-Proof. exact w_ok_param_sql_ok. Qed.
-Print Assumptions C04_param_nonvacuous.
-Example C04_nostructure_nonvacuous : spec_C04 w_ok_shape (run_C04 w_ok_shape) = true /\ known_C04 w_ok_shape = [].
-Proof. exact w_ok_shape_ok. Qed.
-Print Assumptions C04_nostructure_nonvacuous.
+(* (5) the former witnesses of the repaired classes now satisfy the oracle (replayed on the real code on every run:
+       a regression is reported as a violation with that input) *)
+Example C04_literal_backslash_holds : spec_C04 w_K1_literal_backslash (run_C04 w_K1_literal_backslash) = true /\ known_C04 w_K1_literal_backslash = [].
+Proof. exact w_K1_literal_backslash_holds. Qed.
+Print Assumptions C04_literal_backslash_holds.
+Example C04_literal_filter_holds : spec_C04 w_K1_param_backslash (run_C04 w_K1_param_backslash) = true /\ known_C04 w_K1_param_backslash = [].
+Proof. exact w_K1_param_backslash_holds. Qed.
+Print Assumptions C04_literal_filter_holds.
+Example C04_literal_unicode_holds : spec_C04 w_K1_unicode_escape (run_C04 w_K1_unicode_escape) = true /\ known_C04 w_K1_unicode_escape = [].
+Proof. exact w_K1_unicode_escape_holds. Qed.
+Print Assumptions C04_literal_unicode_holds.
+Example C04_surrogate_pair_holds : spec_C04 w_surrogate_pair (run_C04 w_surrogate_pair) = true /\ known_C04 w_surrogate_pair = [].
+Proof. exact w_surrogate_pair_holds. Qed.
+Print Assumptions C04_surrogate_pair_holds.
+Example C04_default_quote_holds : spec_C04 w_K2_default_quote (run_C04 w_K2_default_quote) = true /\ known_C04 w_K2_default_quote = [].
+Proof. exact w_K2_default_quote_holds. Qed.
+Print Assumptions C04_default_quote_holds.
+Example C04_default_injection_holds : spec_C04 w_K2_default_injection (run_C04 w_K2_default_injection) = true /\ known_C04 w_K2_default_injection = [].
+Proof. exact w_K2_default_injection_holds. Qed.
+Print Assumptions C04_default_injection_holds.
+Example C04_capture_holds : spec_C04 w_K3_capture (run_C04 w_K3_capture) = true /\ known_C04 w_K3_capture = [].
+Proof. exact w_K3_capture_holds. Qed.
+Print Assumptions C04_capture_holds.
+Example C04_float_literal_holds : spec_C04 w_K4_float_display (run_C04 w_K4_float_display) = true /\ known_C04 w_K4_float_display = [].
+Proof. exact w_K4_float_display_holds. Qed.
+Print Assumptions C04_float_literal_holds.
 
-(* (7) integers, floats and booleans: the model says the engine is the identity on them (validated differentially;
+(* (6) integers, floats and booleans: the model says the engine is the identity on them (validated differentially;
        part of the statement that is only observed, see level_note) *)
 Theorem C04_scalars_partial : forall c,
-  match c with CInt _ _ | CBool _ _ => True | CFlt _ b tb de => b = tb /\ de = true | _ => False end ->
+  match c with CInt _ _ | CBool _ _ => True | CFlt _ b tb => b = tb | _ => False end ->
   spec_C04 c (run_C04 c) = true.
 Proof. exact scalars_spec. Qed.
 Print Assumptions C04_scalars_partial.
